@@ -10,7 +10,7 @@ import cbcheck as cc
 
 def setup():
     ok = True
-    for v in ["release", "checked", "eio", "eio-async", "eio-both", "nostd", "alloc", "unstable"]:
+    for v in ["release", "checked", "wide", "eio", "eio-async", "eio-both", "nostd", "alloc", "unstable"]:
         r, info = cc.build(v, fatal=False)
         cc.log(f"build {v}: {'ok ' + info if r else 'FAILED'}")
         if not r:
